@@ -466,6 +466,33 @@ def case_chi2(col, p):
     col.distinct('nontrivial', ('chi2',))
 
 
+def _isolated(fn):
+    import os
+    import pickle
+    r, w = os.pipe()
+    pid = os.fork()
+    if pid == 0:
+        try:
+            os.close(r)
+            from dadi import Godambe
+            Godambe.cache.clear()
+            try:
+                out = ('ok', np.array(fn(), dtype=float))
+            except BaseException as e:
+                out = ('err', repr(e))
+            with os.fdopen(w, 'wb') as f:
+                pickle.dump(out, f)
+        finally:
+            os._exit(0)
+    os.close(w)
+    with os.fdopen(r, 'rb') as f:
+        out = pickle.load(f)
+    os.waitpid(pid, 0)
+    if out[0] != 'ok':
+        raise RuntimeError('isolated evaluation failed: %s' % out[1])
+    return out[1]
+
+
 def case_history(col, p):
     """all call sequences up to the depth bound over an alphabet of uncertainty calls that share Godambe.cache"""
     import dadi
@@ -496,11 +523,17 @@ def case_history(col, p):
         'Wald(fA,pA2)': lambda: Godambe.Wald_stat(fA, [20], boots, pA2, data, [2], [25.0, 28.0, 10.0], multinom=False),
         'score(fB,pB)': lambda: Godambe.score_stat(fB, [20], boots, pB, data, [2], multinom=False),
     }
+    # the same statistics on bootstrap sets of other sizes (smaller first, larger later and the reverse are both in the product below)
+    boots5 = boots + [dadi.Spectrum(np.asarray(data.data) * (1 + 0.1 * np.cos(i * (0.5 + 0.3 * b) + b))) for b in range(2)]
+    OPS['Wald(fA,pA2,2 boots)'] = lambda: Godambe.Wald_stat(fA, [20], boots[:2], pA2, data, [2], [25.0, 28.0, 10.0], multinom=False)
+    OPS['score(fB,pB,5 boots)'] = lambda: Godambe.score_stat(fB, [20], boots5, pB, data, [2], multinom=False)
+    OPS['Wald(fA,pA2,5 boots)'] = lambda: Godambe.Wald_stat(fA, [20], boots5, pA2, data, [2], [25.0, 28.0, 10.0], multinom=False)
     names = list(OPS)
     fresh = {}
     for nm in names:
-        Godambe.cache.clear()
-        fresh[nm] = np.array(OPS[nm](), dtype=float)
+        # the value with no history at all: computed in a forked child, so that nothing an earlier call left behind (cache entries, grown
+        # default arguments, module attributes) can reach it
+        fresh[nm] = _isolated(OPS[nm])
     n = 0
     import gc
     for depth in range(2, p['depth'] + 1):
